@@ -364,6 +364,8 @@ def gen_hl_case(rng, quirks=True):
         if k < 0.35:
             name = rng.choice(['left', 'right', 'forward', 'back', 'up', 'down', 'down'])
             d = rng.choice(DIST + (['0', '-0.3'] if quirks else []))
+            if name == 'down' and pos[2] > 0 and rng.random() < 0.35:
+                d = str(pos[2])                   # come down to height exactly 0.0
             ops_d = Fraction(d)
             i, sgn = {'left': (1, 1), 'right': (1, -1), 'forward': (0, 1), 'back': (0, -1), 'up': (2, 1), 'down': (2, -1)}[name]
             pos[i] += sgn * ops_d
@@ -379,6 +381,8 @@ def gen_hl_case(rng, quirks=True):
                 case['ops'].append(['go_to', str(tgt[0]), str(tgt[1]), None, vel()])   # z = default height (may be irrational: dropped)
                 tgt[2] = Fraction(case.get('default_height') or '0.5')
             else:
+                if rng.random() < 0.2:
+                    tgt[0], tgt[1], tgt[2] = pos[0], pos[1], Fraction(0)     # straight down to z = 0.0 (explicit zero argument)
                 case['ops'].append(['go_to', str(tgt[0]), str(tgt[1]), str(tgt[2]), vel()])
             pos = tgt
         elif k < 0.79:
@@ -390,9 +394,9 @@ def gen_hl_case(rng, quirks=True):
         elif k < 0.90:
             case['ops'].append(['set_landing_height', rng.choice(['0', '0.2', '1', '5', '-1'])])
         elif quirks and k < 0.94:
-            case['ops'].append(['land', vel(), rng.choice([None, None, '0.1', '4'])])
+            case['ops'].append(['land', vel(), rng.choice([None, None, '0.1', '4', '0', '0'])])
         elif quirks and k < 0.97:
-            case['ops'].append(['take_off', rng.choice([None, '0.7']), vel()])
+            case['ops'].append(['take_off', rng.choice([None, '0.7', '0']), vel()])
         elif quirks:
             case['ops'].append(['raise'])
     case.pop('default_height_now', None)
@@ -425,6 +429,10 @@ def fixed_cases():
          'ops': [['stop'], ['wait', '0.1'], ['stop'], ['wait', '0.1'], ['stop'], ['wait', '0.3']]},
         {'kind': 'hl', 'ops': [['down', '2', None]]},                                                               # F17b
         {'kind': 'hl', 'default_landing_height': '1', 'ops': []},                                                   # F17b
+        {'kind': 'hl', 'ops': [['down', '0.5', None]]},                                      # height lands exactly on 0.0
+        {'kind': 'hl', 'ops': [['go_to', '1', '0', '0', None], ['go_to', '1', '0', None, None]]},
+        {'kind': 'hl', 'default_landing_height': '0.3', 'ops': [['land', None, '0'], ['take_off', '0', None], ['up', '0.4', None]]},
+        {'kind': 'hl', 'default_height': '1', 'ops': [['set_landing_height', '0.2'], ['go_to', '0', '0', '0', '0.5']]},
         {'kind': 'hl', 'ops': [['set_default_velocity', '0'], ['up', '1', None]]},
         {'kind': 'hl', 'ops': [['set_default_velocity', '-1']]},
         {'kind': 'hl', 'ops': [['go_to', '1', '1', '1', None], ['go_to', '1', '1', '1', None], ['land', None, None], ['up', '1', None]]},
@@ -661,6 +669,27 @@ def check_hl(case, r, consts):
                       'h.stop', names[-2:]))
     if r['flying_after']:
         fails.append(('hl_exit_without_stop', 'still marked flying after the context was left', False, True))
+    # the defaults are tracked here from the constructor arguments and the setter calls (not read from the object)
+    d0 = consts['hl']
+    fl = lambda s, dflt=None: dflt if s is None else float(Fraction(s))  # noqa
+    vdef = fl(case.get('default_velocity'), float(Fraction(d0['default_velocity'])))
+    hdef = fl(case.get('default_height'), float(Fraction(d0['default_height'])))
+    ldef = fl(case.get('default_landing_height'), float(Fraction(d0['default_landing_height'])))
+    start = [fl(case.get(c), float(Fraction(d0[c]))) for c in ('x', 'y', 'z')]
+
+    def dur_ok(dur, dist, v):
+        return v != 0 and abs(dur * v - dist) <= 1e-7 * max(1.0, dist)
+
+    def want_dur(dist, v):
+        return dist / v if v != 0 else 'ZeroDivisionError (velocity 0)'
+    # -- the take-off of __enter__: to the default height, position = (x0, y0, default height)
+    first = [e for e in ev[:marks[0][0]] if e[0] == 'h.takeoff']
+    if len(first) != 1 or not _close(first[0][2], hdef) or not dur_ok(first[0][3], hdef, vdef):
+        fails.append(('hl_takeoff_command', 'entering the context must take off to the default height in height / velocity seconds',
+                      [hdef, want_dur(hdef, vdef)], [e[2:] for e in first]))
+    if not all(_close(a, t) for a, t in zip(pos[0], [start[0], start[1], hdef])):
+        fails.append(('hl_position_not_sum', 'after take-off the reported position must be (x0, y0, default height)',
+                      [start[0], start[1], hdef], pos[0]))
     for k, op in enumerate(case['ops']):
         if k + 1 >= len(pos):
             break
@@ -668,13 +697,38 @@ def check_hl(case, r, consts):
         evs = ev[marks[k][0]:marks[k + 1][0]]
         enames = [e[0] for e in evs]
         name = op[0]
-        vdef = marks[k][2]
-        fl = lambda s, dflt=None: dflt if s is None else float(Fraction(s))  # noqa
+        flying = marks[k][1]
+        if name == 'set_default_velocity':
+            vdef = fl(op[1])
+        elif name == 'set_default_height':
+            hdef = fl(op[1])
+        elif name == 'set_landing_height':
+            ldef = fl(op[1])
         if name == 'land':
-            if marks[k][1] and (not enames or enames[-1] != 'h.stop'):
-                fails.append(('hl_land_without_stop', 'land() returned without stop as its last command', 'h.stop', enames[-2:]))
+            if not flying:
+                if evs:
+                    fails.append(('hl_land_on_ground', 'land() on the ground must not command anything', [], enames))
+                continue
+            v, lh = fl(op[1], vdef), fl(op[2] if len(op) > 2 else None, ldef)
+            if enames != ['h.land', 'h.stop']:
+                fails.append(('hl_land_without_stop', 'land() must send land and then stop as its last command', ['h.land', 'h.stop'], enames))
+                continue
+            if not _close(evs[0][2], lh) or not dur_ok(evs[0][3], abs(before[2] - lh), v):
+                fails.append(('hl_land_command', 'land%r must go to the requested (or default) landing height in |z - height| / velocity seconds'
+                              % (op[1:],), [lh, want_dur(abs(before[2] - lh), v)], evs[0][2:]))
+            if not _close(after[2], lh) or not all(_close(a, b) for a, b in zip(after[:2], before[:2])):
+                fails.append(('hl_position_not_sum', 'after land%r the reported height must be the landing height' % (op[1:],),
+                              [before[0], before[1], lh], after))
             continue
         if name == 'take_off':
+            if flying:
+                continue        # raises 'Already flying' (the body ends there)
+            hh, v = fl(op[1], hdef), fl(op[2] if len(op) > 2 else None, vdef)
+            if enames != ['h.takeoff'] or not _close(evs[0][2], hh) or not dur_ok(evs[0][3], hh, v):
+                fails.append(('hl_takeoff_command', 'take_off%r must go to the requested (or default) height in height / velocity seconds'
+                              % (op[1:],), [hh, want_dur(hh, v)], [e[2:] for e in evs]))
+            if not _close(after[2], hh):
+                fails.append(('hl_position_not_sum', 'after take_off%r the reported height must be the take-off height' % (op[1:],), hh, after[2]))
             continue
         tgt = v = None
         if name in MC_DISP:
@@ -684,15 +738,15 @@ def check_hl(case, r, consts):
             tgt = [before[0] + fl(op[1]), before[1] + fl(op[2]), before[2] + fl(op[3])]
             v = fl(op[4], vdef)
         elif name == 'go_to':
-            tgt = [fl(op[1]), fl(op[2]), after[2] if op[3] is None else fl(op[3])]
+            tgt = [fl(op[1]), fl(op[2]), fl(op[3], hdef)]
             v = fl(op[4], vdef)
         if tgt is None:
             if list(after) != list(before) or evs:
                 fails.append(('hl_position_drift', '%s changed the reported position or sent a command' % name, before, after))
             continue
         if not all(_close(a, t) for a, t in zip(after, tgt)):
-            fails.append(('hl_position_not_sum', '%s%r: reported position must be the previous one plus the displacement' % (name, op[1:]),
-                          tgt, after))
+            fails.append(('hl_position_not_sum', '%s%r: reported position must be the previous one plus the displacement '
+                          '(go_to: the target)' % (name, op[1:]), tgt, after))
         dist = math.sqrt(sum((t - b) ** 2 for t, b in zip(tgt, before)))
         if enames not in ([], ['h.go_to']) or (dist > 1e-9 and enames != ['h.go_to']):
             fails.append(('hl_goto_missing', '%s%r: exactly one go_to must be issued for a non-zero move' % (name, op[1:]),
@@ -700,10 +754,12 @@ def check_hl(case, r, consts):
             continue
         if enames:
             g = evs[0]
-            if not all(_close(a, t) for a, t in zip(g[2:5], after)):
-                fails.append(('hl_goto_target', 'go_to must target the position reported afterwards', after, g[2:5]))
-            if abs(g[6] * v - dist) > 1e-7 * max(1.0, dist):
-                fails.append(('hl_goto_duration', 'go_to duration must be distance / velocity', dist / v, g[6]))
+            if not all(_close(a, t) for a, t in zip(g[2:5], after)) or not all(_close(a, t) for a, t in zip(g[2:5], tgt)):
+                fails.append(('hl_goto_target', 'go_to must target the requested position, which is the position reported afterwards',
+                              tgt, g[2:5]))
+            if not dur_ok(g[6], dist, v):
+                fails.append(('hl_goto_duration', '%s%r: go_to duration must be distance / velocity' % (name, op[1:]),
+                              want_dur(dist, v), g[6]))
     return fails
 
 
@@ -716,6 +772,17 @@ def gen_float_mc_case(rng):
             if op[1] == op[2] == op[3] == '0.0':
                 op[1] = '0.1'
     return c
+
+
+def _check(case, r, consts):
+    """the property checks on one observation; a crash of the checker itself is reported as a failure of this very
+    case (fail-closed, with the input) instead of taking the whole oracle down"""
+    try:
+        return check_mc(case, r, consts) if case['kind'] == 'mc' else check_hl(case, r, consts)
+    except Exception as e:  # noqa
+        import traceback
+        return [('oracle_check_crashed', 'the oracle could not evaluate this observation: %r' % (e,), 'checkable observation',
+                 traceback.format_exc()[-600:])]
 
 
 def oracle(ctx, deep=False):
@@ -737,8 +804,11 @@ def oracle(ctx, deep=False):
         except S.SimHang as e:
             fs = [('hang_in_virtual_time', repr(e), 'terminates', 'hang')]
             r = None
+        except Exception as e:  # noqa  (the driver could not run this case on this tree: report it with the input)
+            fs = [('driver_crashed', 'the virtual-time driver could not run this program: %r' % (e,), 'runs', repr(e))]
+            r = None
         else:
-            fs = check_mc(case, r, consts) if case['kind'] == 'mc' else check_hl(case, r, consts)
+            fs = _check(case, r, consts)
         n += 1
         for cls, detail, expd, obs in fs:
             if cls in seen:
@@ -755,8 +825,7 @@ def _classes(case, consts):
         r = run_case(case, False)
     except S.SimHang:
         return {'hang_in_virtual_time'}
-    fs = check_mc(case, r, consts) if case['kind'] == 'mc' else check_hl(case, r, consts)
-    return {f[0] for f in fs}
+    return {f[0] for f in _check(case, r, consts)}
 
 
 def shrink(case, cls, consts):
@@ -791,7 +860,7 @@ def replay(payload, ctx):
         r = run_case(case, False)
     except S.SimHang as e:
         return {'class': 'hang_in_virtual_time', 'observed': repr(e)}
-    fs = check_mc(case, r, consts) if case['kind'] == 'mc' else check_hl(case, r, consts)
+    fs = _check(case, r, consts)
     want = payload.get('class')
     for cls, detail, expd, obs in fs:
         if want is None or cls == want:
